@@ -92,6 +92,9 @@ func c11CloneOnlyDeepClone(c *Ctx, p *Prog, recv string, fn *ssa.Function) {
 			if b, ok := cc.Value.(*ssa.Builtin); ok && (b.Name() == "len" || b.Name() == "cap") {
 				return
 			}
+			if _, isCall := i.(*ssa.Call); isCall && newHelperCallee(i) != nil {
+				return // a new helper: its body is examined in place (eachInstr), the call itself adds nothing
+			}
 			if !allowedCall[name] {
 				bad = append(bad, "call of "+name+" at "+p.Pos(i.Pos())+": only reflect.ValueOf → deepClone → Interface may produce the result")
 			}
